@@ -24,6 +24,9 @@ enum In {
     /// a mutating tool call that ends in tool_failed: write with timeout_ms 0 (the timeout fires at
     /// the first poll; the call still counts as a workspace mutation and is logged as one)
     WriteTimeout0,
+    /// a background shell task that writes a file (tasks hold the workspace lock for their whole
+    /// execution; they are not linked to a run, so no side-effects frame is due)
+    TaskBash,
     Read,
     Ls,
 }
@@ -35,6 +38,7 @@ fn input(i: In) -> String {
         In::Patch => json!({"tool": "apply_patch", "args": {"patch": "*** Begin Patch\n*** Add File: p.txt\n+p\n*** End Patch"}}).to_string(),
         In::CheckpointCreate => json!({"checkpoint": {"action": "create", "label": "l", "files": ["a.txt"]}}).to_string(),
         In::WriteTimeout0 => json!({"tool": "write", "args": {"path": "t.txt", "content": "T"}, "timeout_ms": 0}).to_string(),
+        In::TaskBash => json!({"tool": "bash", "args": {"command": "echo T > task.txt"}}).to_string(),
         In::Read => json!({"tool": "read", "args": {"path": "seed.txt"}}).to_string(),
         In::Ls => json!({"tool": "ls", "args": {}}).to_string(),
     }
@@ -54,7 +58,7 @@ struct World {
     sessions: Vec<String>,
 }
 
-const FILTER: [&str; 10] = ["start", "ws.lock", "ws.guard.*", "tool.handler.*", "ckpt.action.*", "tool.semaphore", "cont.next_seq", "cont.publish", "sess.publish", "log.appended"];
+const FILTER: [&str; 11] = ["start", "ws.lock", "ws.guard.*", "tool.handler.*", "ckpt.action.*", "task.exec.*", "tool.semaphore", "cont.next_seq", "cont.publish", "sess.publish", "log.appended"];
 
 fn make_world(rt: &Arc<tokio::runtime::Runtime>, inputs: &[In]) -> (World, Vec<ActorBody>) {
     let fx = Fx::new(rt.clone());
@@ -63,8 +67,23 @@ fn make_world(rt: &Arc<tokio::runtime::Runtime>, inputs: &[In]) -> (World, Vec<A
     let thread = store.ensure_default().expect("thread");
     let mut actors: Vec<ActorBody> = Vec::new();
     let mut sessions = Vec::new();
+    let app = {
+        let _g = rt.enter();
+        ripd::verif_export::VerifApp::new(fx.engine.clone(), false)
+    };
     for &i in inputs {
         let content = input(i);
+        if i == In::TaskBash {
+            let payload: Value = serde_json::from_str(&content).unwrap();
+            let (tid, fut) = rt.block_on(app.create_task_future(payload)).expect("task");
+            sessions.push(tid);
+            let rt2 = rt.clone();
+            actors.push(Box::new(move |ctx: &ActorCtx| {
+                let _g = rt2.enter();
+                ctx.block_on(fut);
+            }));
+            continue;
+        }
         let m = store.append_message(&thread, "u".into(), "o".into(), content.clone()).expect("msg");
         let handle = fx.engine.create_session();
         sessions.push(handle.session_id.clone());
@@ -144,6 +163,18 @@ fn check_exec(report: &Report, inputs: &[In], world: &World, exec: &Exec, saw_ov
                 open_handlers.push((s.actor, format!("checkpoint_{}", s.label)));
             }
             ("ckpt.action", false) => open_handlers.retain(|(a, _)| *a != s.actor),
+            ("task.exec", true) => {
+                if !open_guards.contains(&s.actor) {
+                    report.violation(&format!("C11:mutation_outside_workspace_guard:task:{label}"), case(), &format!("actor {} executes its task while it does not hold the workspace guard (holders: {:?})", s.actor, open_guards));
+                    return;
+                }
+                if open_handlers.iter().any(|(a, l)| *a != s.actor && !matches!(l.as_str(), "read" | "ls" | "grep" | "artifact_fetch")) {
+                    report.violation(&format!("C11:mutating_tools_overlap:{label}"), case(), &format!("a task started executing while {:?} is running", open_handlers));
+                    return;
+                }
+                open_handlers.push((s.actor, "task".to_string()));
+            }
+            ("task.exec", false) => open_handlers.retain(|(a, _)| *a != s.actor),
             _ => {}
         }
     }
@@ -218,7 +249,7 @@ fn run_config(report: &Report, inputs: &[In], bound: usize) {
 }
 
 pub fn replay(report: &Report, case: &Value) {
-    let all = [In::WriteA, In::WriteB, In::Patch, In::CheckpointCreate, In::WriteTimeout0, In::Read, In::Ls];
+    let all = [In::WriteA, In::WriteB, In::Patch, In::CheckpointCreate, In::WriteTimeout0, In::TaskBash, In::Read, In::Ls];
     let inputs: Vec<In> = case["inputs"].as_array().map(|a| a.iter().filter_map(|v| all.iter().copied().find(|i| format!("{i:?}") == v.as_str().unwrap_or(""))).collect()).unwrap_or_default();
     let prefix: Vec<usize> = case["choice_points_only"].as_array().map(|a| a.iter().filter_map(|v| v.as_u64().map(|x| x as usize)).collect()).unwrap_or_default();
     let rt = Arc::new(tokio::runtime::Builder::new_multi_thread().worker_threads(1).enable_all().build().expect("rt"));
@@ -233,11 +264,11 @@ pub fn replay(report: &Report, case: &Value) {
 pub fn run(opts: Opts) -> i32 {
     let report = Report::new("C11", "model_checking", opts.clone());
     report.set_rule(
-        "engine S: every unordered pair (thorough: plus triples at bound 1) of inputs {write a, write b, apply_patch, checkpoint create, write with timeout_ms 0 (ends in tool_failed), read, \
+        "engine S: every unordered pair (thorough: plus triples at bound 1) of inputs {write a, write b, apply_patch, checkpoint create, write with timeout_ms 0 (ends in tool_failed), a background bash task that writes a file, read, \
          ls} as real run_session futures linked to one thread on one engine; all interleavings at workspace-lock / tool-semaphore / guard \
          and handler span / seq-lock / publish hooks with <=1 (quick) / <=2 (thorough) preemptions; state = distinct executed schedule",
     );
-    report.assume("tool handlers run on tokio's blocking pool: the actor waits for them in place (external work never depends on a parked actor); tasks (child processes) are not part of this exploration");
+    report.assume("tool handlers run on tokio's blocking pool and a task's child process and pumps on the runtime: the actor waits for them in place (external work never depends on a parked actor)");
     report.assume("a timeout_ms on a tool is an input, not a schedule (the timed-out tool keeps running after tool_failed): see DESIGN.md known limitation");
     crate::sched::install_hooks();
     if let Some(path) = &opts.replay {
@@ -246,7 +277,7 @@ pub fn run(opts: Opts) -> i32 {
         return report.finish();
     }
     let tier = report.tier();
-    let all = [In::WriteA, In::WriteB, In::Patch, In::CheckpointCreate, In::WriteTimeout0, In::Read, In::Ls];
+    let all = [In::WriteA, In::WriteB, In::Patch, In::CheckpointCreate, In::WriteTimeout0, In::TaskBash, In::Read, In::Ls];
     let mut configs: Vec<(Vec<In>, usize)> = Vec::new();
     for (i, a) in all.iter().enumerate() {
         for b in &all[i..] {
